@@ -155,6 +155,18 @@ func (engC11) Gen(r *Rng, s *Script, idx int, tier string) {
 			s.Steps = append(s.Steps, Step{Op: "attach"})
 		}
 	}
+	if r.Chance(1, 6) {
+		// a row obtained from AppendNewRow reports through the table from the start
+		s.Config["append_new_row_scenario"] = 1
+		s.Steps = append(s.Steps, Step{Op: "headers", Items: genItems(r, 2, 0, &ctr)})
+		s.Steps = append(s.Steps, Step{Op: "register", A: ownColumn, B: 1, C: 1 + 2*r.Intn(2), D: 1, Plan: []int{0, 1, 2, 3}})
+		s.Steps = append(s.Steps, Step{Op: "appendNewRow"})
+		s.Steps = append(s.Steps, Step{Op: "register", A: ownRow, B: 0, C: 0, D: 1, Plan: []int{0, 2}})
+		for i := r.Range(1, 3); i > 0; i-- {
+			s.Steps = append(s.Steps, Step{Op: "rowAdd", A: 0, Items: genItems(r, 1, 0, &ctr)})
+		}
+		s.Steps = append(s.Steps, Step{Op: "invokeRC"})
+	}
 	errW := r.Range(1, 6)
 	regW := r.Range(1, 4)
 	renW := r.Range(0, 3)
@@ -293,7 +305,11 @@ func (engC12) Gen(r *Rng, s *Script, idx int, tier string) {
 			if r.Chance(1, 3) {
 				a = r.Intn(40)
 			}
-			s.Steps = append(s.Steps, Step{Op: "setProp", A: a, C: r.Intn(nkeys), D: r.Pick([]int{1, 2})})
+			d := r.Pick([]int{1, 2})
+			if d == 1 && r.Chance(1, 10) {
+				d = 3 + r.Intn(6)
+			}
+			s.Steps = append(s.Steps, Step{Op: "setProp", A: a, C: r.Intn(nkeys), D: d})
 		case 2:
 			switch r.Intn(8) {
 			case 0, 1:
